@@ -99,8 +99,57 @@ def load(name):
         return json.load(fh)
 
 
+def _normalise(events):
+    """Drop query events (`~..`) and branch regions that contain nothing but queries: what remains is the sequence of
+    effects, returns and the branch structure around them."""
+    out = []
+    stack = [out]
+    heads = []
+    for e in events:
+        if e.startswith("~"):
+            continue
+        opens = e.endswith("{")
+        closes = e.startswith("}")
+        if closes and opens:            # `} else {`
+            stack[-1].append(e)
+            continue
+        if opens:
+            region = [e]
+            stack[-1].append(region)
+            stack.append(region)
+            continue
+        if closes:
+            region = stack.pop() if len(stack) > 1 else stack[-1]
+            region.append(e)
+            continue
+        stack[-1].append(e)
+
+    def flat(xs):
+        res = []
+        for x in xs:
+            if isinstance(x, list):
+                inner = flat(x[1:-1]) if x and isinstance(x[-1], str) and x[-1].startswith("}") else flat(x[1:])
+                body = [y for y in inner if not (y.startswith("| ") or y.startswith("} else {"))]
+                if body:
+                    res.append(x[0])
+                    res.extend(inner)
+                    if x and isinstance(x[-1], str) and x[-1].startswith("}"):
+                        res.append(x[-1])
+            else:
+                res.append(x)
+        return res
+    return flat(out)
+
+
+def _queries(events):
+    from collections import Counter
+    return Counter(e for e in events if e.startswith("~"))
+
+
 def compare(ctx, rule, label, fn, table, ref, loc):
-    """ref: {arm: [events]}"""
+    """ref: {arm: [events]}. Exact agreement passes. Otherwise the sequences of effects / returns with their branch structure
+    must agree exactly and every query of the reference must still be made: added queries (and branches made of queries only)
+    are tolerated, because they cannot change what the function does to its state."""
     for arm, want in ref.items():
         row = table.get(arm)
         if row is None:
@@ -109,16 +158,27 @@ def compare(ctx, rule, label, fn, table, ref, loc):
         got = row["events"]
         if got == want:
             ctx.ok(rule, "%s:%s" % (label, arm), {"fn": label, "arm": arm, "events": got[:6]})
+            continue
+        g2, w2 = _normalise(got), _normalise(want)
+        missing = _queries(want) - _queries(got)
+        if g2 == w2 and not missing and any(e.startswith("~") for e in want + got):
+            ctx.ok(rule, "%s:%s" % (label, arm), {"fn": label, "arm": arm, "events": got[:6], "note": "agrees up to added queries"})
+            continue
+        if g2 != w2:
+            a, b = g2, w2
         else:
-            # first difference
-            i = 0
-            while i < min(len(got), len(want)) and got[i] == want[i]:
-                i += 1
-            g = got[i] if i < len(got) else "(nothing)"
-            w = want[i] if i < len(want) else "(nothing)"
-            ctx.violation(rule, "%s:%s" % (label, arm),
-                          "%s arm %s deviates from the audited reference at step %d: does `%s`, reference `%s`"
-                          % (fn, arm, i + 1, g[:220], w[:220]), [loc[0], row["ln"]])
+            a, b = sorted(_queries(got).elements()), sorted(_queries(want).elements())
+            a = [x for x in a]
+            b = [next(iter(missing))] if missing else b
+            a = ["(query no longer made)"]
+        i = 0
+        while i < min(len(a), len(b)) and a[i] == b[i]:
+            i += 1
+        g = a[i] if i < len(a) else "(nothing)"
+        w = b[i] if i < len(b) else "(nothing)"
+        ctx.violation(rule, "%s:%s" % (label, arm),
+                      "%s arm %s deviates from the audited reference at step %d: does `%s`, reference `%s`"
+                      % (fn, arm, i + 1, g[:220], w[:220]), [loc[0], row["ln"]])
     for arm in table:
         if arm not in ref:
             ctx.violation(rule, "%s:%s:new" % (label, arm), "%s has a new arm %s that the audited reference does not cover" % (fn, arm),
@@ -421,7 +481,11 @@ class Seq:
         for label, rx in self.spec.get("calls", []):
             if re.search(rx, c):
                 args = [canon(a, env) for a in H.call_args(n)]
-                self.out.append("%s(%s)" % (label, ", ".join(args)))
+                # a query: no `&mut` receiver or argument. Queries are marked `~`; compare() tolerates added ones.
+                tys_ = [n.get("recv_ty") or ""] if H.kind(n) == "MethodCall" else []
+                tys_ += [(a.get("ty") or "") for a in H.call_args(n) if isinstance(a, dict)]
+                pure = not any(t.startswith("&mut") for t in tys_) and not re.search(self.spec.get("effects", r"$^"), c)
+                self.out.append("%s%s(%s)" % ("~" if pure else "", label, ", ".join(args)))
                 return
 
     def bind(self, pat, base, env):
